@@ -711,9 +711,9 @@ func (p *Path) doReturn(r *ssa.Return) {
 			vars["ret_"+res.At(i).Name()] = v
 		}
 	}
+	p.cover("return", site)
 	p.checkPost(site, vars, false)
 	p.checkLoopExit(site, vars)
-	p.cover("return", site)
 	p.finish()
 }
 
@@ -937,7 +937,10 @@ func (p *Path) blockingInventory() {
 				}
 				spec, _, _, _ := p.lookupSpec(cc)
 				// dynamic calls and calls without a contract may block; contracts say so with `attr blocking`
-				if spec == nil || spec.Attrs["blocking"] != "" || spec.ModAll || cc.IsInvoke() {
+				if spec != nil && spec.Attrs["blocking"] == "no" {
+					continue
+				}
+				if spec == nil || spec.Attrs["blocking"] == "yes" || spec.ModAll || cc.IsInvoke() {
 					site = fx.siteName[in]
 				}
 			}
